@@ -3,8 +3,9 @@
 //! compared with an independently built Plutus Data value: constructor index = index of the case in
 //! the type declaration, fields in DECLARATION order whatever order the construction site writes
 //! them in, integers exact (CBOR int inside +-2^64, bignum beyond), bytes unchanged.
-//! BOUND: 5 templates (record with permuted fields, variant cases with permuted fields, a case named `Default` in a
-//! non-first position, a field-less last case)
+//! BOUND: 9 templates (record with permuted fields, variant cases with permuted fields, a case named `Default` in a
+//! non-first position, a field-less last case, nested same-named cases, maps with repeated literal / computed keys, a list
+//! with repeated items)
 //! x 9 boundary integers.
 use std::collections::BTreeMap;
 use tx3_cardano::pallas::codec::utils::{Int, MaybeIndefArray};
@@ -22,6 +23,8 @@ type Action { Stop, Go { x: Int, }, Turn { y: Int, z: Bytes, }, }
 type Mode { Fast { speed: Int, }, Default { level: Int, }, Idle, }
 type Inner { Pair { second: Int, first: Int, }, Empty, }
 type Outer { Empty, Pair { first: Int, second: Inner, }, }
+type Book { entries: Map<Int, Int>, }
+type Shelf { items: List<Int>, tail: Bytes, }
 tx record_permuted(n: Int) {
     input source { from: Sender, min_amount: Ada(2000000) + fees, }
     output { to: Receiver, amount: Ada(2000000), datum: State { third: 0xabcd, second: 2, first: n, }, }
@@ -45,6 +48,21 @@ tx fieldless_last_case(n: Int) {
 tx nested_same_case_name(n: Int) {
     input source { from: Sender, min_amount: Ada(2000000) + fees, }
     output { to: Receiver, amount: Ada(2000000), datum: Outer::Pair { first: n, second: Inner::Pair { second: 2, first: 3, }, }, }
+    output { to: Sender, amount: source - Ada(2000000) - fees, }
+}
+tx map_with_repeated_key(n: Int) {
+    input source { from: Sender, min_amount: Ada(2000000) + fees, }
+    output { to: Receiver, amount: Ada(2000000), datum: Book { entries: {1: n, 2: 20, 1: 30,}, }, }
+    output { to: Sender, amount: source - Ada(2000000) - fees, }
+}
+tx map_with_computed_keys(n: Int) {
+    input source { from: Sender, min_amount: Ada(2000000) + fees, }
+    output { to: Receiver, amount: Ada(2000000), datum: Book { entries: {n: 1, 7: n, n: 3, 5: 5,}, }, }
+    output { to: Sender, amount: source - Ada(2000000) - fees, }
+}
+tx list_with_repeats(n: Int) {
+    input source { from: Sender, min_amount: Ada(2000000) + fees, }
+    output { to: Receiver, amount: Ada(2000000), datum: Shelf { items: [n, 2, n, 2, 1], tail: 0x00, }, }
     output { to: Sender, amount: source - Ada(2000000) - fees, }
 }
 tx variant_second(n: Int) {
@@ -75,6 +93,23 @@ fn int_data(n: i128) -> PlutusData {
 
 fn bytes_data(b: &[u8]) -> PlutusData { PlutusData::BoundedBytes(BoundedBytes::from(b.to_vec())) }
 
+// maps are association lists in Plutus Data: every pair the template writes, in the order written
+fn map_data(pairs: Vec<(PlutusData, PlutusData)>) -> PlutusData {
+    PlutusData::Map(tx3_cardano::pallas::codec::utils::KeyValuePairs::Def(pairs))
+}
+
+fn list_data(items: Vec<PlutusData>) -> PlutusData { PlutusData::Array(MaybeIndefArray::Def(items)) }
+
+/// structural comparison: definite / indefinite length encodings of the same list or map are the same data
+fn same(a: &PlutusData, b: &PlutusData) -> bool {
+    match (a, b) {
+        (PlutusData::Constr(x), PlutusData::Constr(y)) => x.tag == y.tag && x.any_constructor == y.any_constructor && x.fields.len() == y.fields.len() && x.fields.iter().zip(y.fields.iter()).all(|(p, q)| same(p, q)),
+        (PlutusData::Array(x), PlutusData::Array(y)) => x.len() == y.len() && x.iter().zip(y.iter()).all(|(p, q)| same(p, q)),
+        (PlutusData::Map(x), PlutusData::Map(y)) => x.len() == y.len() && x.iter().zip(y.iter()).all(|((k1, v1), (k2, v2))| same(k1, k2) && same(v1, v2)),
+        _ => a == b,
+    }
+}
+
 fn constr_data(alt: u64, fields: Vec<PlutusData>) -> PlutusData {
     assert!(alt <= 6);
     PlutusData::Constr(Constr { tag: 121 + alt, any_constructor: None, fields: MaybeIndefArray::Def(fields) })
@@ -93,6 +128,9 @@ fn main() {
             ("fieldless_last_case", constr_data(2, vec![])),
             // each constructor uses the declaration order of ITS OWN case: Outer::Pair [first, second], Inner::Pair [second, first]
             ("nested_same_case_name", constr_data(1, vec![int_data(n), constr_data(0, vec![int_data(2), int_data(3)])])),
+            ("map_with_repeated_key", constr_data(0, vec![map_data(vec![(int_data(1), int_data(n)), (int_data(2), int_data(20)), (int_data(1), int_data(30))])])),
+            ("map_with_computed_keys", constr_data(0, vec![map_data(vec![(int_data(n), int_data(1)), (int_data(7), int_data(n)), (int_data(n), int_data(3)), (int_data(5), int_data(5))])])),
+            ("list_with_repeats", constr_data(0, vec![list_data(vec![int_data(n), int_data(2), int_data(n), int_data(2), int_data(1)]), bytes_data(&[0])])),
         ] {
             cases += 1;
             let input = format!("tx={name} n={n}");
@@ -119,7 +157,7 @@ fn main() {
                 _ => None,
             });
             match datum {
-                Some(got) if got == want => {}
+                Some(got) if same(&got, &want) => {}
                 Some(got) => println!("VERIF-WITNESS obligation=c09_pipeline/datum#postcondition fn=try_as_data input={input} observed={got:?} required={want:?}"),
                 None => println!("VERIF-WITNESS obligation=c09_pipeline/datum#postcondition fn=try_as_data input={input} observed=no inline datum required={want:?}"),
             }
